@@ -1,0 +1,88 @@
+//! Observation hooks for external runtime monitors.
+//!
+//! Only compiled with the `verif-hooks` cargo feature, which is off by
+//! default. The hooks are read-only: they copy bookkeeping out of a collection
+//! or forward to private pure functions, so that a monitor outside the crate
+//! can check structural invariants between calls to the public API.
+
+pub use crate::control::verif::{
+    group_observe, tag_full, GroupObs, MaskObs, BITMASK_STRIDE, GROUP_WIDTH,
+};
+pub use crate::raw::verif::{
+    bucket_mask_to_capacity, calculate_layout_for, capacity_to_buckets, h1, probe_positions,
+    table_layout_of, RawDump,
+};
+
+use crate::raw::Allocator;
+use crate::{HashMap, HashSet, HashTable};
+#[cfg(feature = "rayon")]
+use ::alloc::vec::Vec;
+
+impl<K, V, S, A: Allocator> HashMap<K, V, S, A> {
+    /// Copies the raw bookkeeping of the map.
+    pub fn verif_dump(&self) -> RawDump {
+        self.table.verif_dump()
+    }
+    /// The entry stored in bucket `index`, if that bucket is full.
+    pub fn verif_bucket(&self, index: usize) -> Option<(&K, &V)> {
+        self.table.verif_bucket(index).map(|kv| (&kv.0, &kv.1))
+    }
+    /// Address of the storage of bucket `index`.
+    pub fn verif_bucket_addr(&self, index: usize) -> Option<usize> {
+        self.table.verif_bucket_addr(index)
+    }
+    /// Bucket indices produced by each leaf of a split tree.
+    #[cfg(feature = "rayon")]
+    pub fn verif_split_leaves(
+        &self,
+        decide: &mut dyn FnMut(usize, usize) -> bool,
+    ) -> Vec<Vec<usize>> {
+        self.table.verif_split_leaves(decide)
+    }
+}
+
+impl<T, S, A: Allocator> HashSet<T, S, A> {
+    /// Copies the raw bookkeeping of the set.
+    pub fn verif_dump(&self) -> RawDump {
+        self.map.table.verif_dump()
+    }
+    /// The element stored in bucket `index`, if that bucket is full.
+    pub fn verif_bucket(&self, index: usize) -> Option<&T> {
+        self.map.table.verif_bucket(index).map(|kv| &kv.0)
+    }
+    /// Address of the storage of bucket `index`.
+    pub fn verif_bucket_addr(&self, index: usize) -> Option<usize> {
+        self.map.table.verif_bucket_addr(index)
+    }
+    /// Bucket indices produced by each leaf of a split tree.
+    #[cfg(feature = "rayon")]
+    pub fn verif_split_leaves(
+        &self,
+        decide: &mut dyn FnMut(usize, usize) -> bool,
+    ) -> Vec<Vec<usize>> {
+        self.map.table.verif_split_leaves(decide)
+    }
+}
+
+impl<T, A: Allocator> HashTable<T, A> {
+    /// Copies the raw bookkeeping of the table.
+    pub fn verif_dump(&self) -> RawDump {
+        self.raw.verif_dump()
+    }
+    /// The element stored in bucket `index`, if that bucket is full.
+    pub fn verif_bucket(&self, index: usize) -> Option<&T> {
+        self.raw.verif_bucket(index)
+    }
+    /// Address of the storage of bucket `index`.
+    pub fn verif_bucket_addr(&self, index: usize) -> Option<usize> {
+        self.raw.verif_bucket_addr(index)
+    }
+    /// Bucket indices produced by each leaf of a split tree.
+    #[cfg(feature = "rayon")]
+    pub fn verif_split_leaves(
+        &self,
+        decide: &mut dyn FnMut(usize, usize) -> bool,
+    ) -> Vec<Vec<usize>> {
+        self.raw.verif_split_leaves(decide)
+    }
+}
